@@ -293,9 +293,12 @@ def run(tier="quick", seed=0):
     return res
 
 
-PIPE_BOUND = ("about 40 argument vectors of `zerv version` / `zerv flow` (sources none and stdin; overrides incl. --epoch 0, bumps, presets, custom schemas with "
+PIPE_BOUND = ("about 50 argument vectors of `zerv version` / `zerv flow` (sources none and stdin; overrides incl. --epoch 0, bumps, presets, custom schemas with "
               "awkward literals, custom JSON): the object emitted with --output-format zerv is piped into `zerv version --source stdin` for semver and "
-              "pep440 and compared with the direct rendering; the emitted object is re-emitted through the pipe and compared byte for byte")
+              "pep440 and compared with the direct rendering; the emitted object is re-emitted through the pipe and compared byte for byte "
+              "(`zerv render --output-format zerv` included; --output-prefix, custom JSON nested up to 100 levels); an emitted object with dirty: Some(true) "
+              "and a fixed bumped_timestamp must keep that value; 14 documents whose schema breaks one placement rule each (or that are not RON) must be refused "
+              "with an error and an empty stdout")
 
 PIPE_VECTORS = [
     ["version"] + NONE + ["v1.2.3"],
@@ -316,6 +319,37 @@ PIPE_VECTORS = [
     ["flow"] + NONE + ["1.2.3", "--distance", "2", "--bumped-branch", "feature/x"],
     ["flow"] + NONE + ["1.2.3-beta.4", "--distance", "2", "--bumped-branch", "release/7", "--no-dirty"],
     ["flow"] + NONE + ["1.2.3", "--bumped-branch", "develop", "--distance", "1", "--schema", "standard-base-prerelease-post"],
+    ["version"] + NONE + ["1.2.3", "--output-prefix", "v"],
+    ["flow"] + NONE + ["1.2.3", "--bumped-branch", "main", "--output-prefix", "release-"],
+    ["version"] + NONE + ["1.2.3", "--custom", "[" * 40 + "]" * 40],
+    ["version"] + NONE + ["1.2.3", "--custom", "[" * 100 + "]" * 100],
+    ["version"] + NONE + ["1.2.3", "--custom", "{\"a\":" * 70 + "1" + "}" * 70],
+    ["render", "1.2.3-epoch.0"],
+    ["render", "1.2.3-2.epoch.0.alpha"],
+    ["render", "1!2.0rc1.post2.dev3+x.1", "--input-format", "pep440"],
+    ["render", "1.2.3-rc.1.post.4+build.5"],
+]
+
+_CORE3 = "core:[var(Major),var(Minor),var(Patch)]"
+_VARS = "vars:(major:Some(1),minor:Some(2),patch:Some(3),bumped_timestamp:Some(1700000000))"
+# (class, document): every one breaks exactly one rule named in the statement, or is not RON
+PIPE_REFUSED = [
+    ("major-outside-core", f"(schema:(core:[var(Minor),var(Patch)],extra_core:[var(Major)],build:[]),{_VARS})"),
+    ("patch-in-build", f"(schema:(core:[var(Major),var(Minor)],extra_core:[],build:[var(Patch)]),{_VARS})"),
+    ("core-out-of-order", f"(schema:(core:[var(Minor),var(Major),var(Patch)],extra_core:[],build:[]),{_VARS})"),
+    ("epoch-in-core", f"(schema:(core:[var(Major),var(Minor),var(Patch),var(Epoch)],extra_core:[],build:[]),{_VARS})"),
+    ("pre-release-in-build", f"(schema:({_CORE3},extra_core:[],build:[var(PreRelease)]),{_VARS})"),
+    ("post-in-core", f"(schema:(core:[var(Major),var(Post)],extra_core:[],build:[]),{_VARS})"),
+    ("dev-in-build", f"(schema:({_CORE3},extra_core:[],build:[var(Dev)]),{_VARS})"),
+    ("duplicate-major", f"(schema:(core:[var(Major),var(Major)],extra_core:[],build:[]),{_VARS})"),
+    ("duplicate-post", f"(schema:({_CORE3},extra_core:[var(Post),var(Post)],build:[]),{_VARS})"),
+    ("no-component", f"(schema:(core:[],extra_core:[],build:[]),{_VARS})"),
+    ("unknown-pattern-word", f"(schema:({_CORE3},extra_core:[],build:[var(ts(\"bogus\"))]),{_VARS})"),
+    ("unknown-pattern-empty", f"(schema:({_CORE3},extra_core:[],build:[var(ts(\"\"))]),{_VARS})"),
+    ("unknown-pattern-percent", f"(schema:({_CORE3},extra_core:[],build:[var(ts(\"%Q\"))]),{_VARS})"),
+    ("not-ron", f"(schema:({_CORE3},extra_core:[],build:[]),{_VARS}"),
+    ("not-ron", "{\"schema\": 1}"),
+    ("not-ron", ""),
 ]
 
 
@@ -345,9 +379,12 @@ def run_pipe(tier="quick", seed=0):
             res["cases"] += 1
             if rc != 0:
                 continue   # a rejected vector has nothing to pipe (the stream discipline is C13's family)
-            rc2, again, _ = _run(zerv, ["version", "--source", "stdin", "--output-format", "zerv"], obj, work, env)
+            rc2, again, err2 = _run(zerv, ["version", "--source", "stdin", "--output-format", "zerv"], obj, work, env)
             if rc2 != 0:
-                bad("emitted-object-rejected", f"`zerv {show} --output-format zerv` emits an object that `zerv version --source stdin` rejects")
+                cls = "emitted-object-rejected"
+                if b"recursion limit" in err2:
+                    cls = "custom-json-nested-deeper-than-the-reader"
+                bad(cls, f"`zerv {show} --output-format zerv` emits an object that `zerv version --source stdin` rejects: {err2.decode('utf-8', 'replace').strip()[:160]!r}")
                 continue
             if mask(again) != mask(obj):
                 bad("re-emission-differs", f"`zerv {show}`: the emitted object changes when piped through `zerv version --source stdin --output-format zerv`: "
@@ -355,11 +392,37 @@ def run_pipe(tier="quick", seed=0):
                                            f"{[l for l in again.decode('utf-8', 'replace').splitlines() if l not in obj.decode('utf-8', 'replace').splitlines()][:4]!r}")
             for fmt in ("semver", "pep440"):
                 res["cases"] += 1
+                if "--output-prefix" in argv:
+                    continue   # the prefix belongs to the direct rendering only; what matters for these vectors is that the emitted object reads back
                 rd, direct, _ = _run(zerv, argv + ["--output-format", fmt], None, work, env)
                 rp, piped, _ = _run(zerv, ["version", "--source", "stdin", "--output-format", fmt], obj, work, env)
                 if rd != rp or mask(direct) != mask(piped):
                     bad("pipe-rendering-differs", f"`zerv {show}` renders {fmt} as {direct.decode('utf-8', 'replace').strip()!r} (status {rd}) directly but "
                                                   f"{piped.decode('utf-8', 'replace').strip()!r} (status {rp}) through the RON pipe")
+        # "re-emits byte-identically": an emitted object whose state is dirty, with a fixed bumped_timestamp (what zerv emits at that second)
+        rc, obj, _ = _run(zerv, ["version"] + NONE + ["1.2.3", "--no-dirty", "--distance", "2", "--bumped-timestamp", "1700000000", "--schema", "calver", "--output-format", "zerv"], None, work, env)
+        res["cases"] += 1
+        if rc == 0 and b"dirty: Some(false)" in obj and b"bumped_timestamp: Some(1700000000)" in obj:
+            doc = obj.replace(b"dirty: Some(false)", b"dirty: Some(true)")
+            rc2, again, _ = _run(zerv, ["version", "--source", "stdin", "--output-format", "zerv"], doc, work, env)
+            if rc2 != 0:
+                bad("emitted-object-rejected", "the calver object with dirty: Some(true) is rejected on stdin")
+            elif again != doc:
+                diff = [l.strip() for l in again.decode("utf-8", "replace").splitlines() if l not in doc.decode("utf-8", "replace").splitlines()][:3]
+                cls = "dirty-timestamp-rewritten" if mask(again) == mask(doc) else "re-emission-differs"
+                bad(cls, f"an object with dirty: Some(true) and bumped_timestamp: Some(1700000000) re-emits with {diff!r} through `zerv version --source stdin --output-format zerv` "
+                         "(every pass replaces the stored timestamp by the wall clock, so the piped rendering of calver / timestamp schemas differs from the direct one)")
+        else:
+            res.update(status="error", lines=["harness: the calver object was not emitted as expected"])
+            return res
+        # "input that is not valid RON, or whose schema violates them … is rejected with an error rather than rendered"
+        for cls, doc in PIPE_REFUSED:
+            for fmt in ("semver", "pep440", "zerv"):
+                res["cases"] += 1
+                rc, out, err = _run(zerv, ["version", "--source", "stdin", "--output-format", fmt], doc.encode(), work, env)
+                if rc == 0 or out.strip():
+                    bad("refusal::" + cls, f"the document {doc[:150]!r} is rendered as {out.decode('utf-8', 'replace').strip()[:60]!r} (status {rc}) instead of being refused ({fmt})")
+                    break
     finally:
         shutil.rmtree(work, ignore_errors=True)
     res["wall_s"] = round(time.time() - t0, 2)
@@ -757,4 +820,93 @@ def run_git_failures(tier="quick", seed=0):
     return res
 
 
-FAMILIES = {"cli_git_failures": run_git_failures, "cli_template_output": run_template_output, "cli_check_verdict": run_verdict, "cli_discipline": run, "cli_pipe": run_pipe, "cli_bumps": run_bumps}
+ONE_LINE_BOUND = ("14 prefixes (absent, ASCII, non-ASCII, blank, tab, CR, with a line feed at the start / middle / end) x 9 argument vectors of version / flow / render "
+                  "x semver and pep440: whenever the exit status is 0, stdout is the prefix, then one string matching the SemVer 2.0.0 / canonical PEP 440 grammar (ASCII), "
+                  "then one line feed and nothing else (thorough: + 300 seeded random prefix / state combinations)")
+_SEMVER_RE = (r"(0|[1-9][0-9]*)\.(0|[1-9][0-9]*)\.(0|[1-9][0-9]*)(-((0|[1-9][0-9]*|[0-9]*[a-zA-Z-][0-9a-zA-Z-]*)(\.(0|[1-9][0-9]*|[0-9]*[a-zA-Z-][0-9a-zA-Z-]*))*))?"
+              r"(\+([0-9a-zA-Z-]+(\.[0-9a-zA-Z-]+)*))?")
+_PEP440_RE = (r"([1-9][0-9]*!)?(0|[1-9][0-9]*)(\.(0|[1-9][0-9]*))*((a|b|rc)(0|[1-9][0-9]*))?(\.post(0|[1-9][0-9]*))?(\.dev(0|[1-9][0-9]*))?"
+              r"(\+[a-z0-9]+(\.[a-z0-9]+)*)?")
+_PREFIXES = [None, "v", "release-", "ü-", " ", "\t", "x\r", "v\n", "a\nb", "\n", "\nrelease-", "x\n\n", "\r\n", "1.2.3\n"]
+_ONE_LINE_VECTORS = [
+    ["version"] + NONE + ["1.2.3"],
+    ["version"] + NONE + ["1.2.3-rc.1", "--bump-pre-release-num", "--post", "3"],
+    ["version"] + NONE + ["1.2.3", "--distance", "3", "--dirty", "--bumped-branch", "féature/٣x \"q\"\nz", "--bumped-commit-hash", "abcdef123456", "--schema", "standard-context"],
+    ["version"] + NONE + ["1.2.3", "--schema", "calver-base-prerelease-post-dev-context", "--bumped-timestamp", "1710511845", "--epoch", "2"],
+    ["version"] + NONE + ["1.2.3", "--custom", "{\"k\": \"a\\nb\"}", "--schema-ron", "(core:[var(Major),var(Minor),var(Patch)],extra_core:[],build:[var(custom(\"k\")),str(\"x\\ny\")])"],
+    ["flow"] + NONE + ["1.2.3", "--distance", "2", "--bumped-branch", "feature/x\ny"],
+    ["flow"] + NONE + ["1.2.3-beta.4", "--distance", "2", "--bumped-branch", "release/7", "--no-dirty"],
+    ["render", "1.2.3-rc.1.post.4+build.5"],
+    ["render", "1!2.0rc1.post2.dev3+x.1", "--input-format", "pep440"],
+]
+
+
+def run_one_line(tier="quick", seed=0):
+    """C01: "stdout is exactly one line: the optional --output-prefix followed by a string that is valid SemVer 2.0.0 (resp. a normalised PEP 440 version)"."""
+    import re
+    import random
+    t0 = time.time()
+    res = {"family": "cli_one_line", "bound": ONE_LINE_BOUND, "cases": 0}
+    ok, msg = rengine.build_zerv()
+    if not ok:
+        res.update(status="error", lines=["the zerv binary does not build from the working tree: " + msg[-400:]])
+        return res
+    zerv = rengine.ZERV
+    work = tempfile.mkdtemp(prefix="verif_line_")
+    classes = {}
+    grammar = {"semver": re.compile(_SEMVER_RE), "pep440": re.compile(_PEP440_RE)}
+
+    def bad(cls, text):
+        classes.setdefault(cls, []).append(f"CEX cli_one_line class={cls} {text}")
+
+    def one(argv, prefix, fmt):
+        res["cases"] += 1
+        full = argv + ["--output-format", fmt] + ([] if prefix is None else ["--output-prefix", prefix])
+        rc, out, err = _run(zerv, full, None, work, env)
+        if rc != 0:
+            return
+        show = " ".join(repr(a) for a in full)
+        try:
+            text = out.decode("utf-8")
+        except UnicodeDecodeError:
+            bad("not-text", f"`zerv {show}` writes bytes that are not UTF-8: {out[:80]!r}")
+            return
+        pre = prefix or ""
+        if text.count("\n") != 1 or not text.endswith("\n"):
+            bad("prefix-line-break" if "\n" in pre else "not-one-line", f"`zerv {show}` exits 0 and writes {text.count(chr(10))} line feeds: {text[:80]!r}")
+            return
+        if not text.startswith(pre):
+            bad("prefix-missing", f"`zerv {show}` writes {text[:80]!r}, which does not start with the prefix")
+            return
+        version = text[len(pre):-1]
+        if not grammar[fmt].fullmatch(version):
+            bad("not-in-grammar", f"`zerv {show}` writes {version[:120]!r} after the prefix, which is not {fmt}")
+
+    try:
+        env = {k: v for k, v in os.environ.items() if not k.startswith("RUST_LOG") and not k.startswith("ZERV_")}
+        env.update(TZ="Pacific/Kiritimati", HOME=work, NO_COLOR="1")
+        for argv in _ONE_LINE_VECTORS:
+            for prefix in _PREFIXES:
+                for fmt in ("semver", "pep440"):
+                    one(argv, prefix, fmt)
+        if tier == "thorough":
+            rnd = random.Random(seed * 7919 + 17)
+            alphabet = ["v", "V", "-", "_", ".", " ", "\n", "\r", "\t", "ü", "0", "9", "+", "!", "release", "\u2028", "\x0b", "\x0c", "\x85", "\\n", "{{", "%"]
+            for _ in range(300):
+                prefix = "".join(rnd.choice(alphabet) for _ in range(rnd.randint(0, 5)))
+                argv = list(rnd.choice(_ONE_LINE_VECTORS))
+                if argv[0] != "render" and rnd.random() < 0.5:
+                    argv += [rnd.choice(["--bump-major", "--bump-minor", "--bump-patch", "--bump-post", "--bump-dev", "--bump-epoch"]), str(rnd.choice([0, 1, 7, 4294967295]))]
+                one(argv, prefix, rnd.choice(["semver", "pep440"]))
+    finally:
+        shutil.rmtree(work, ignore_errors=True)
+    res["wall_s"] = round(time.time() - t0, 2)
+    if classes:
+        lines = [l for v in classes.values() for l in v]
+        res.update(status="cex", lines=lines[:5], classes={k: v[:5] for k, v in classes.items()})
+    else:
+        res.update(status="no-cex", lines=[])
+    return res
+
+
+FAMILIES = {"cli_one_line": run_one_line, "cli_git_failures": run_git_failures, "cli_template_output": run_template_output, "cli_check_verdict": run_verdict, "cli_discipline": run, "cli_pipe": run_pipe, "cli_bumps": run_bumps}
